@@ -176,6 +176,27 @@ class Fixed(Shape):
         return SList([s.sym(ex, '%s[%d]' % (name, i)) for i, s in enumerate(self.items)], self.kind)
 
 
+class SliceOf(Shape):
+    """slice(start, stop) with shaped bounds"""
+    def __init__(self, a, b):
+        self.a, self.b = a, b
+
+    def sym(self, ex, name):
+        return slice(self.a.sym(ex, name + '.start'), self.b.sym(ex, name + '.stop'), None)
+
+
+class IntSet(Shape):
+    """an arbitrary set of integers within [lo, hi): membership is an uninterpreted predicate"""
+    def __init__(self, lo, hi):
+        self.lo, self.hi = lo, hi
+
+    def sym(self, ex, name):
+        nm = ex.fresh_name(name)
+        st = SSet()
+        st.pred = (self.lo, self.hi, z3.Function(nm + '!member', z3.IntSort(), z3.BoolSort()))
+        return st
+
+
 class ListOf(Shape):
     """list/deque of symbolic length"""
     def __init__(self, s, min=0, max=None, kind='list'):
@@ -427,7 +448,7 @@ def deep_copy(v, memo):
         d.sym = [(k, deep_copy(x, memo)) for k, x in v.sym] if v.sym else None
         return d
     if isinstance(v, SSet):
-        s = SSet(v.d.items())
+        s = N.copy_set(v)
         memo[id(v)] = s
         return s
     if isinstance(v, SBytes):
@@ -555,7 +576,10 @@ def concretize(ex, v, m, memo=None, depth=0):
 
 # ================================================================ contracts
 class LoopSpec(object):
-    def __init__(self, invariant=(), decreases=None, havoc=None, index='_k', temps=()):
+    def __init__(self, invariant=(), decreases=None, havoc=None, index='_k', temps=(), entry=None):
+        # entry: ghost locals bound to the value of an expression when the loop is first reached (before the
+        # havoc), usable in invariants, variants and havoc expressions ("old" at loop entry)
+        self.entry = entry or {}
         self.invariant = list(invariant)
         self.decreases = decreases
         self.havoc = havoc or {}
@@ -849,6 +873,8 @@ def annotated_loop(ex, node, spec, it=None):
         fr.locals[spec.index] = 0
         fr.locals[spec.index + '_n'] = n
     LOOPS_SEEN.add(tag)
+    for gname, gsrc in spec.entry.items():
+        fr.locals[gname] = eval_clause(ex, gsrc, fr.locals, mod, fr.env)
     # 1. invariant holds on entry
     for i, inv in enumerate(spec.invariant):
         ex.oblige('%s/inv-init#%d' % (tag, i), clause_truth(ex, inv, fr.locals, mod, fr.env, '+', 'invariant'),
@@ -1259,7 +1285,7 @@ def verify(world_factory, c, registry_by_name=None):
         mod = raw.module if isinstance(raw, FuncVal) else None
         for r in c.requires + c.bounds:
             ex.assume(clause_truth(ex, r, env, mod, None, None, 'requires'))
-        if ex.check() != z3.sat:
+        if ex.check(full=True) != z3.sat:
             raise PathEnd()
         old_env = {}
         memo = {}
